@@ -171,9 +171,26 @@ func genCrs(r *vproto.Rng, w *bufio.Writer, forceKind string) {
 		}
 		tw = strings.Join(ts, ",")
 	}
+	if datum == "custom" && r.Chance(0.5) {
+		// names close to entries of the library's datum tables (WGS_1972, NAD83 HARN, ...): index into customDatumNames
+		datum = fmt.Sprintf("custom:%d", 1+r.Intn(10))
+	}
 	style := ""
 	for _, c := range "easxkt" {
 		if r.Chance(0.35) {
+			style += string(c)
+		}
+	}
+	// clause order: u = UNIT before PROJECTION/PARAMETERs, m = UNIT between PARAMETERs, p = PROJECTION last,
+	// g = GEOGCS last, w = TOWGS84 before SPHEROID, f = AUTHORITY first
+	switch r.Intn(4) {
+	case 0:
+		style += "u"
+	case 1:
+		style += "m"
+	}
+	for _, c := range "pgwf" {
+		if r.Chance(0.3) {
 			style += string(c)
 		}
 	}
